@@ -44,7 +44,8 @@ NEEDS = {
  'C20-1': "two registrations sharing a code pointer and a later or overlapping emit",
  'C20-2': "a Push or a second drain falling between the copy and the clear",
 }
-os.chdir('/verif')
+os.chdir(os.path.dirname(os.path.dirname(os.path.abspath(__file__))))
+BASE = os.environ.get('SEED_BASE', '/repo')
 ids = sys.argv[1:] or sorted(os.path.basename(d.rstrip('/')) for d in glob.glob('seeded/C*-*/'))
 rows = []
 claimed = {c['property_id'] for c in json.load(open('MANIFEST.json'))['checks']}
@@ -69,7 +70,7 @@ def one(sid):
     tmp = tempfile.mkdtemp(prefix='seedmx-', dir='/var/tmp')
     try:
         repo = tmp + '/repo'
-        subprocess.run(['rsync', '-a', '--exclude', '.git', '/repo/', repo + '/'], check=True)
+        subprocess.run(['rsync', '-a', '--exclude', '.git', BASE + '/', repo + '/'], check=True)
         if subprocess.run(['git', 'apply', '--unsafe-paths', '--directory=' + repo, patch], cwd='/').returncode != 0:
             if subprocess.run('cd %s && patch -p1 -s < %s' % (repo, patch), shell=True).returncode != 0:
                 return (sid, prop, 'patch does not apply', [])
